@@ -278,6 +278,14 @@ FAULTS = {
     'unknown_flowsplit': lambda t: _sub(t, r'corr_flowsplit  = CTD', 'corr_flowsplit  = XYZ'),
     'unknown_mixing': lambda t: _sub(t, r'corr_mixing     = CTD', 'corr_mixing     = XYZ'),
     'unknown_nusselt': lambda t: _sub(t, r'corr_nusselt    = DB', 'corr_nusselt    = XYZ'),
+    # names that are only PARTS or near misses of a valid name are unknown too
+    'unknown_nusselt_truncated': lambda t: _sub(t, r'corr_nusselt    = DB', 'corr_nusselt    = dittus'),
+    'unknown_nusselt_one_letter': lambda t: _sub(t, r'corr_nusselt    = DB', 'corr_nusselt    = D'),
+    'unknown_friction_truncated': lambda t: _sub(t, r'corr_friction   = CTD', 'corr_friction   = CT'),
+    'unknown_flowsplit_truncated': lambda t: _sub(t, r'corr_flowsplit  = CTD', 'corr_flowsplit  = TD'),
+    'unknown_mixing_truncated': lambda t: _sub(t, r'corr_mixing     = CTD', 'corr_mixing     = C'),
+    'unknown_coolant_truncated': lambda t: _sub(t, r'coolant_material   = sodium_fixed', 'coolant_material   = sodium_fix'),
+    'unknown_duct_material_truncated': lambda t: _sub(t, r'duct_material   = ss316', 'duct_material   = ss31'),
     'unknown_gap_model': lambda t: _sub(t, r'gap_model          = flow', 'gap_model          = turbo'),
     'zero_gap_fraction_flow': lambda t: _sub(t, r'bypass_fraction    = 0.05', 'bypass_fraction    = 0.0'),
     'tiny_gap_fraction': lambda t: _sub(t, r'bypass_fraction    = 0.05', 'bypass_fraction    = 1e-13'),
@@ -327,6 +335,9 @@ VALID = {
     'gap_no_flow': lambda t: _sub(t, r'gap_model          = flow', 'gap_model          = no_flow'),
     'gap_duct_average': lambda t: _sub(t, r'gap_model          = flow', 'gap_model          = duct_average'),
     'total_power_zero': lambda t: _sub(t, r'power_scaling_factor = 1.0', 'power_scaling_factor = 1.0\n    total_power = 0.0'),
+    # spacer grids: user loss coefficient; loss correlation with the default solidity (input written in metres)
+    'spacer_grid_loss_coefficient': 'grid_loss',
+    'spacer_grid_correlation_default_solidity': 'grid_corr',
     'triple_duct': 'triple_duct',
     'low_fidelity': 'low_fidelity',
     'six_node': 'six_node',
@@ -337,6 +348,8 @@ def _base(wd, kind=None):
     from pvc import geninput as G
     a1 = dict(pin_model='fuel', hotspot=True, unrodded=[('lower', 0.0, 0.2, 'simple'), ('upper', 0.8, 1.0, 'simple')])
     b = dict(_B)
+    if kind in ('grid_loss', 'grid_corr'):
+        a1 = dict(a1, grid=[0.3, 0.6])
     if kind == 'triple_duct':
         a1, b = dict(n_duct=3), dict(n_duct=3)
     elif kind == 'low_fidelity':
@@ -360,6 +373,9 @@ def _outcome(name):
         else:
             p = _base(wd)
         t = open(p).read()
+        if VALID.get(name) == 'grid_corr':
+            t = t.replace('            loss_coeff = 1.2\n', '            corr = CDD\n')
+            open(p, 'w').write(t)
         if name in POWER_FAULTS:
             pf = os.path.join(wd, 'power_0.csv')
             rows = [ln.strip().split(',') for ln in open(pf)]
